@@ -166,7 +166,12 @@ func genScopes(r *vgen.Rand) []instrumentation.Scope {
 		s := instrumentation.Scope{Name: fmt.Sprintf("lib/%d", i), Version: vgen.Pick(r, []string{"", "v1.2.3", "0.1"}),
 			SchemaURL: vgen.Pick(r, schemaURLs)}
 		if r.Chance(1, 2) {
-			s.Attributes = attribute.NewSet(genAttrs(r, 3, true)...)
+			// A scope without attributes keeps the zero attribute.Set: the code uses the Scope value as
+			// a Go map key, for which attribute.NewSet() (no attributes) and the zero Set differ although
+			// every reader sees the same scope (see notes/C13.md, observations).
+			if set := attribute.NewSet(genAttrs(r, 3, true)...); set.Len() > 0 {
+				s.Attributes = set
+			}
 		}
 		if r.Chance(1, 12) {
 			s.Name = "" // a scope that only has a version / schema URL / attributes
@@ -178,9 +183,10 @@ func genScopes(r *vgen.Rand) []instrumentation.Scope {
 
 const baseNanos = int64(1_700_000_000_000_000_000)
 
-// genTime: realistic instants plus the boundaries of the uint64 nanosecond encoding.
+// genTime: realistic instants plus the boundaries of the uint64 nanosecond encoding; about one
+// instant in twenty lies outside the property's range guard (before the epoch).
 func genTime(r *vgen.Rand) time.Time {
-	switch r.Intn(16) {
+	switch r.Intn(40) {
 	case 0:
 		return time.Unix(0, 0)
 	case 1:
@@ -188,18 +194,18 @@ func genTime(r *vgen.Rand) time.Time {
 	case 2:
 		return time.Unix(0, math.MaxInt64)
 	case 3:
-		return time.Unix(0, -1) // before the epoch: outside the property's range guard
+		return time.Unix(0, -1) // before the epoch: outside the guard (clamped to 0)
 	case 4:
-		return time.Time{} // zero time (UnixNano undefined, negative)
-	case 5:
+		return time.Time{} // zero time (UnixNano undefined, negative): outside the guard
+	case 5, 6:
 		return time.Unix(0, int64(r.U64()>>1))
 	}
 	return time.Unix(0, baseNanos+int64(r.U64()%3_600_000_000_000))
 }
 
-// genCount: dropped-item counts around the uint32 clamp.
+// genCount: dropped-item counts around the uint32 clamp; about one in fifteen outside the guard.
 func genCount(r *vgen.Rand) int {
-	switch r.Intn(12) {
+	switch r.Intn(45) {
 	case 0:
 		return math.MaxUint32
 	case 1:
@@ -209,8 +215,8 @@ func genCount(r *vgen.Rand) int {
 	case 3:
 		return -1 // outside the guard (clamped)
 	case 4:
-		return math.MaxInt64
-	case 5, 6:
+		return math.MaxInt64 // outside the guard (clamped)
+	case 5, 6, 7, 8, 9, 10, 11, 12, 13, 14:
 		return r.Intn(1000)
 	}
 	return 0
